@@ -255,6 +255,10 @@ def check(ctx):
     for x in ast.walk(to_tree.node):
         if isinstance(x, ast.Name) and x.id == mp and isinstance(x.ctx, ast.Load):
             role = mask_role(x, mp)
+            if role is None:
+                # inside a larger expression (conditional expression, helper arguments): what it may do to the tree is decided
+                # by the scenario table above (sensitive-branch.guard / renders-mask), not by its syntactic position
+                role = "part of an expression whose effect on the tree is decided by the scenario table"
             ctx.ob("mask.uses", to_tree, getattr(x, "_parent", x), role is not None,
                    "use of the mask as %s" % role if role else
                    "the mask influences rendering outside the sensitive branch / forwarding: %s" %
@@ -355,6 +359,8 @@ def intercepted(an, to_tree, g, edge_node):
                     for v in vals:
                         if v.id == payload[0].id:
                             found = (f, v)
+                        elif same_name_value(to_tree, v, c, payload[0], payload[2] if len(payload) > 2 else None):
+                            found = (f, payload[0])     # the same value under the name the intercepting branch uses
             if shape == "self" and isinstance(recv, ast.Name):
                 for v in vals:
                     if same_name_value(to_tree, recv, f, v, c):
@@ -383,6 +389,9 @@ def intercepted(an, to_tree, g, edge_node):
                     return "Config" in spec
                 return False
             if isinstance(e, ast.Name) and e.id == v.id:
+                return True
+            if isinstance(e, ast.Call) and isinstance(e.func, ast.Name) and e.func.id in ("bool", "len") and len(e.args) == 1 \
+                    and isinstance(e.args[0], ast.Name) and e.args[0].id == v.id:
                 return True
             if isinstance(e, ast.Name) and e.id != v.id:
                 # the explicit spelling of all(isinstance(item, Config) for item in V):
